@@ -1,4 +1,6 @@
 """C06 — event-file rows assemble into exactly the annotation the sidecar prescribes (cell and row level)."""
+import os
+
 from vp import reg as R
 from vp import sidecar_stub
 from vp.frame_stub import Frame, with_pd_stub
@@ -10,7 +12,9 @@ from hed.models.tabular_input import TabularInput
 from hed.models.column_mapper import ColumnMapper
 from hed.models.column_metadata import ColumnMetadata, ColumnType
 
-_HARDWIRE_KNOWN = True     # True while developing: exclusions active without known_findings.json
+# VP_C06_HARDWIRE=1 in the environment: the known-finding exclusions are active without known_findings.json
+# listing them (development aid); otherwise they follow R.known, i.e. known_findings.json
+_HARDWIRE_KNOWN = bool(os.environ.get("VP_C06_HARDWIRE"))
 
 _CLS = ",() "               # classes used to partition a reference's surroundings (+ "anything else")
 
@@ -497,7 +501,8 @@ HARNESSES = [
     R.H("value_cell", _T_MAP + ["hed.models.column_mapper.ColumnMapper._value_handler"],
         quick=R.tier(env={"VP_N": 3, "VP_M": 3}, timeout=150,
                      bound="every template with len <= 3 containing '#', every cell text with len <= 3"),
-        thorough=R.tier(env={"VP_N": 4, "VP_M": 4}, timeout=900,
+        thorough=R.tier(cells=R.str_cells(4, split1_from=4, nclass=2, minlen=1), env={"VP_N": 4, "VP_M": 4},
+                        timeout=900,
                         bound="every template with len <= 4 containing '#', every cell text with len <= 4"),
         what="the transformer that the real mapper installs for a value column returns the template with every "
              "'#' replaced by the cell text; an n/a (or empty) cell stays skipped",
